@@ -626,6 +626,38 @@ def apply_field_renames(facts, log):
         b._defs = None
 
 
+_ARITH = {"saturating_add": "Add", "wrapping_add": "Add", "saturating_sub": "Sub", "wrapping_sub": "Sub"}
+
+
+def apply_arith_methods(facts, log):
+    """`a.saturating_add(b)` / `wrapping_add` / `saturating_sub` / `wrapping_sub` on primitive integers are read as `a + b` / `a - b`.
+    The rules only look at which value is combined with which (the forms differ on overflow alone, where the saturating / wrapping
+    forms are the defensive spelling), so hardening an increment or decrement this way does not change any verdict."""
+    for crate in facts.crates.values():
+        if crate.name.startswith("__"):
+            continue
+        n = 0
+        for b in list(crate.bodies):
+            sites = []
+            for bi, t in b.calls():
+                fn = t["func"].get("fn") if isinstance(t["func"], dict) else None
+                if fn and fn.get("name") in _ARITH and (fn.get("dp") or "").startswith("core::num::") and len(t["args"]) == 2 \
+                        and t.get("t") is not None:
+                    sites.append((bi, _ARITH[fn["name"]]))
+            if not sites:
+                continue
+            j = copy.deepcopy(b.j)
+            for bi, op in sites:
+                blk = j["blocks"][bi]
+                t = blk["term"]
+                blk["stmts"].append({"k": "Assign", "lhs": t["dest"], "rv": {"k": "BinaryOp", "op": op, "ops": list(t["args"])}, "loc": t["loc"]})
+                blk["term"] = {"k": "Goto", "t": t["t"], "loc": t["loc"]}
+                n += 1
+            _rebuild(facts, crate, b, j)
+        if n:
+            log.append("%d saturating/wrapping add/sub call(s) in %s read as plain + / -" % (n, crate.name))
+
+
 def apply(facts):
     log = []
     if not os.path.exists(INV):
@@ -633,6 +665,7 @@ def apply(facts):
     apply_field_renames(facts, log)
     apply_renames(facts, log)
     apply_inlining(facts, log)
+    apply_arith_methods(facts, log)
     facts.normalize_log = log
     return log
 
